@@ -46,6 +46,48 @@ theorem chromRunFrom_step [BEq K] [LawfulBEq K] (param : K → P) (wls : List K)
         rw [hinv e0 hm, hk]
     simp only [chromRunFrom, List.map_cons, hstep.1, ih _ hstep.2]
 
+/-- One step of the per-wavelength cache keeps the invariant "every cached instance holds the parameter
+of its own wavelength" and returns the parameter of the requested wavelength. -/
+theorem chromStep_inv [BEq K] [LawfulBEq K] (param : K → P) (cache : List (K × P)) (wl : K)
+    (hinv : ∀ e ∈ cache, e.2 = param e.1) :
+    (chromStep param cache wl).1 = param wl ∧ ∀ e ∈ (chromStep param cache wl).2, e.2 = param e.1 := by
+  unfold chromStep chromLookup
+  cases hf : cache.find? (fun e => e.1 == wl) with
+  | none =>
+    refine ⟨rfl, ?_⟩
+    intro e he
+    simp only [Option.map_none, List.mem_append, List.mem_singleton] at he
+    rcases he with he | he
+    · exact hinv e he
+    · rw [he]
+  | some e0 =>
+    have hm := List.mem_of_find?_eq_some hf
+    have hk := List.find?_some hf
+    simp only [beq_iff_eq] at hk
+    refine ⟨?_, hinv⟩
+    simp only [Option.map_some]
+    rw [hinv e0 hm, hk]
+
+/-- Invariant of a setter history: whatever was assigned and used before, every cached instance holds the
+*current* parameter at its own wavelength (an assignment empties the cache). -/
+theorem setRunFrom_step [BEq K] [LawfulBEq K] (evs : List (Ev K P)) :
+    ∀ st : ObjSt K P, (∀ e ∈ st.cache, e.2 = st.param.eval e.1) →
+      setRunFrom setStep st evs = setSpec st.param evs := by
+  induction evs with
+  | nil => intro _ _; rfl
+  | cons ev evs ih =>
+    intro st hinv
+    cases ev with
+    | use wl =>
+      have h := chromStep_inv st.param.eval st.cache wl hinv
+      have h2 := ih ⟨st.param, (chromStep st.param.eval st.cache wl).2, st.builtConst⟩ h.2
+      simp only [setRunFrom, setStep, setSpec, h.1]
+      exact congrArg _ h2
+    | set p =>
+      have h2 := ih ⟨p, [], st.builtConst⟩ (by intro e he; cases he)
+      simp only [setRunFrom, setStep, setSpec]
+      exact h2
+
 end Chrom
 
 section Partition
